@@ -12,8 +12,23 @@ from checks import c02
 pl = rp["payload"]
 sched, force = c02.MODES[pl["mode"]]
 variant = pl.get("only") or rp["violation"].get("variant") or {}
+VERBOSE = len(sys.argv) > 2
+def short(x):
+    r = repr(x).replace("\n", " ")
+    import re
+    r = re.sub(r"array\([^)]*\)", "arr", r)
+    r = re.sub(r"Tensor\(\[[^{]*", "Tensor(", r)
+    return r[:260]
+class VCtl(execs.FaultController):
+    def post_decline(self, iname, rname, cls, args, result, k):
+        d = super().post_decline(iname, rname, cls, args, result, k)
+        if VERBOSE:
+            print("   #%d %s %s%s" % (k, iname, rname, "  [DECLINED]" if d else ""))
+            print("        args:", short(args))
+            print("        ->  :", short(result))
+        return d
 for var in ({"record": True}, variant):
-    ctl = execs.FaultController(decline_k=var.get("k"), disable_rule=var.get("rule"), record=True, check_dependence=False)
+    ctl = VCtl(decline_k=var.get("k"), disable_rule=var.get("rule"), record=True, check_dependence=False)
     env = {}
     res = execs.run_program(pl["program"], sched, force, ctl=ctl, env=env)
     print("=== variant", var, "K", ctl.firings)
